@@ -142,6 +142,28 @@ impl<'ast> Visit<'ast> for LoopFinder {
     fn visit_item(&mut self, _n: &'ast syn::Item) {}
 }
 
+struct MatchFinder<'s> {
+    src: &'s str,
+    matches: Vec<Value>,
+}
+impl<'ast, 's> Visit<'ast> for MatchFinder<'s> {
+    fn visit_expr_match(&mut self, n: &'ast syn::ExprMatch) {
+        let mut arms = vec![];
+        for a in n.arms.iter() {
+            let (ps, pe) = match spanned_json(&a.pat) {
+                Value::Array(v) => (v[0].as_u64().unwrap() as usize, v[1].as_u64().unwrap() as usize),
+                _ => (0, 0),
+            };
+            let pat: String = self.src[ps..pe].split_whitespace().collect::<Vec<_>>().join("");
+            arms.push(json!({"pat": pat, "pat_span": [ps, pe], "body": spanned_json(&*a.body),
+                             "guard": a.guard.is_some()}));
+        }
+        self.matches.push(json!({"span": spanned_json(n), "arms": arms}));
+        syn::visit::visit_expr_match(self, n);
+    }
+    fn visit_item(&mut self, _n: &'ast syn::Item) {}
+}
+
 fn collect_idents(ts: TokenStream, name: &str, out: &mut Vec<Value>) {
     for tt in ts {
         match tt {
@@ -208,7 +230,12 @@ fn fn_json(
     let mut loops = vec![];
     let mut self_tokens = vec![];
     let mut body = Value::Null;
+    let mut matches = vec![];
     if let Some(b) = block {
+        let mut mf = MatchFinder { src, matches: vec![] };
+        mf.visit_block(b);
+        matches = mf.matches;
+        matches.sort_by_key(|l| l["span"][0].as_u64().unwrap_or(0));
         let mut lf = LoopFinder { loops: vec![] };
         lf.visit_block(b);
         loops = lf.loops;
@@ -247,6 +274,7 @@ fn fn_json(
         "where": sig.generics.where_clause.as_ref().map(|w| spanned_json(w)).unwrap_or(Value::Null),
         "body": body,
         "loops": loops,
+        "matches": matches,
         "self_tokens": self_tokens,
     })
 }
